@@ -2533,20 +2533,21 @@ func (db *DB) WriteLTXFileAt(ctx context.Context, r io.Reader) (string, error) {
 		return "", fmt.Errorf("ltx validation error: %w", err)
 	}
 
-	// If this is a snapshot, remove all other files before rename.
-	if hdr.IsSnapshot() {
-		dir, file := filepath.Split(tmpPath)
-		log.Printf("snapshot received for %q, removing other ltx files except: %s", db.Name(), file)
-		if err := removeFilesExcept(db.os, dir, file); err != nil {
-			return "", fmt.Errorf("remove ltx except snapshot: %w", err)
-		}
-	}
-
 	// Atomically rename file.
 	if err := db.os.Rename("WRITELTX", tmpPath, path); err != nil {
 		return "", fmt.Errorf("rename ltx file: %w", err)
 	} else if err := internal.Sync(filepath.Dir(path)); err != nil {
 		return "", fmt.Errorf("sync ltx dir: %w", err)
+	}
+
+	// If this is a snapshot, remove all other files. This happens after the
+	// rename so that a crash in between never leaves the log empty.
+	if hdr.IsSnapshot() {
+		dir, file := filepath.Split(path)
+		log.Printf("snapshot received for %q, removing other ltx files except: %s", db.Name(), file)
+		if err := removeFilesExcept(db.os, dir, file); err != nil {
+			return "", fmt.Errorf("remove ltx except snapshot: %w", err)
+		}
 	}
 	return path, nil
 }
